@@ -419,6 +419,19 @@ func runC05(r *Run, p *Prog) {
 						return walk(x.Y, d+1)
 					case *ssa.Convert:
 						return walk(x.X, d+1)
+					case *ssa.Call:
+						// (a value computed from the state: `strings.TrimSpace(input[lineStart:pos]) != ""`)
+						for _, arg := range x.Call.Args {
+							if fa := walk(arg, d+1); fa != nil {
+								return fa
+							}
+						}
+					case *ssa.Slice:
+						for _, o := range []ssa.Value{x.Low, x.High} {
+							if fa := walk(o, d+1); fa != nil {
+								return fa
+							}
+						}
 					case *ssa.Phi:
 						for _, e := range x.Edges {
 							if fa := walk(e, d+1); fa != nil {
